@@ -184,6 +184,45 @@ pub fn run_child(ctx: &mut Ctx) {
         ctx.case(fnv(ops.join(";").as_bytes()), ops.len() >= 4);
         let _ = std::fs::remove_dir_all(&dir); let _ = std::fs::remove_dir_all(&side);
     }
+    // ---- directed (C18): a chunk of a shard registered only in keyed form shares its truncated hash with a chunk of an unkeyed
+    // shard; the unkeyed collection's candidate fails verification and the lookup must go on to the keyed collection
+    for round in 0..(if maxidx < (1 << 20) { 0 } else if ctx.quick() { 6 } else { 40 }) {
+        let mut rng = ctx.rng.fork(97_000 + round);
+        let dir = tmp_root.join(format!("shadow{round}"));
+        let side = tmp_root.join(format!("shadow-side{round}"));
+        std::fs::create_dir_all(&dir).unwrap(); std::fs::create_dir_all(&side).unwrap();
+        let mgr = rt.block_on(ShardFileManager::new_in_session_directory(&dir)).unwrap();
+        let n1 = rng.range(1, 3) as usize;
+        let mut gk = gen_content(&mut rng, n1, 0, 0, false);
+        let mut seen = BTreeSet::new();
+        for c in gk.cas.iter_mut() { for ch in c.chunks.iter_mut() { while !seen.insert(ch.chunk_hash[0]) { ch.chunk_hash = rand_hash(&mut rng); } } }
+        let Some(target_x) = gk.cas.iter().find(|c| !c.chunks.is_empty()).cloned() else { continue; };
+        let q: Vec<MerkleHash> = target_x.chunks.iter().take(3).map(|c| c.chunk_hash).collect();
+        // the unkeyed shard: one xorb holding a chunk with the same first 8 bytes as q[0] but another hash
+        let mut gu = gen_content(&mut rng, 1, 0, 0, false);
+        if gu.cas[0].chunks.is_empty() { continue; }
+        for ch in gu.cas[0].chunks.iter_mut() { while !seen.insert(ch.chunk_hash[0]) { ch.chunk_hash = rand_hash(&mut rng); } }
+        { let k = rng.below(gu.cas[0].chunks.len() as u64) as usize; let mut h = q[0]; h[1] ^= 0x5a5a; h[2] = h[2].wrapping_add(1); gu.cas[0].chunks[k].chunk_hash = h; }
+        let write = |g: &Gen| { let mut mem = MDBInMemoryShard::default(); for c in &g.cas { mem.add_cas_block(c.clone()).unwrap(); } mem.write_to_directory(&side).unwrap() };
+        let pu = write(&gu); let pk = write(&gk);
+        let key = rand_hash(&mut rng);
+        let keyed_first = rng.chance(1, 2);
+        let (ci, ki) = (rng.chance(1, 2), rng.chance(1, 2));
+        let register_unkeyed = |mgr: &std::sync::Arc<ShardFileManager>| { let dest = dir.join(pu.file_name().unwrap()); std::fs::copy(&pu, &dest).unwrap(); rt.block_on(mgr.register_shards_by_path(&[&dest])).unwrap(); };
+        let register_keyed = |mgr: &std::sync::Arc<ShardFileManager>| { let sf = MDBShardFile::load_from_file(&pk).unwrap(); let ex = sf.export_as_keyed_shard(&dir, key, Duration::from_secs(3600), false, ci, ki).unwrap(); rt.block_on(mgr.register_shards(&[ex])).unwrap(); };
+        if keyed_first { register_keyed(&mgr); register_unkeyed(&mgr); } else { register_unkeyed(&mgr); register_keyed(&mgr); }
+        let a = rt.block_on(mgr.chunk_hash_dedup_query(&q)).unwrap();
+        let mut world: BTreeMap<MerkleHash, MDBCASInfo> = BTreeMap::new();
+        for c in gk.cas.iter().chain(gu.cas.iter()) { world.insert(c.metadata.cas_hash, c.clone()); }
+        if let Err(e) = truthful(&a, &q, &world, None) { ctx.fail("C05", "manager-untruthful", format!("shard manager dedup answer not truthful: {e} (directed shadow round {round})"), "null".into()); }
+        if a.is_none() {
+            ctx.fail("C18", "other-collection-shadows-hit", format!("a chunk run stored only in a shard under key {}.. is not found through the manager when an unkeyed shard holds a chunk with the same truncated hash (registered {}; cas_table={ci}, chunk_table={ki}; round {round})", &key.hex()[..8], if keyed_first { "keyed first" } else { "unkeyed first" }),
+                     format!("{{\"suite\":\"manager\",\"seed\":{},\"shadow_round\":{round}}}", ctx.seed));
+        }
+        ctx.stat("directed_shadow_rounds");
+        drop(mgr);
+        let _ = std::fs::remove_dir_all(&dir); let _ = std::fs::remove_dir_all(&side);
+    }
     // ---- a shard cache directory shared with another process (C11): a manager obtained again for the same directory sees the
     // shards that appeared there in the meantime (a later session of this process finds what another process uploaded)
     for round in 0..(if maxidx < (1 << 20) { 0 } else if ctx.quick() { 4 } else { 30 }) {   // (index cap out of play)
